@@ -1,7 +1,22 @@
 import PqlModel.Props.C15
+import PqlModel.Props.C15Parse
 #print axioms Pql.C15.C15_count
 #print axioms Pql.C15.C15_join
 #print axioms Pql.C15.C15_scan_local
 #print axioms Pql.C15.C15_no_semi_in_piece
 #print axioms Pql.C15.C15_piece_tokens
 #print axioms Pql.C15.C15_piece_tokens_at
+#print axioms Pql.Piecewise.C15_parse_pieces_full
+#print axioms Pql.Piecewise.C15_parse_errors
+#print axioms Pql.Piecewise.C15_piece_statements
+#print axioms Pql.Piecewise.C15_parse_error_iff
+#print axioms Pql.Piecewise.C15_statement_count
+#print axioms Pql.Piecewise.C15_statement_count_needs_ok
+#print axioms Pql.Piecewise.C15_parse_semicolon
+#print axioms Pql.Piecewise.C15_parse_semicolon_of_reaches
+#print axioms Pql.Piecewise.C15_parse_semicolon_needs_hyp
+#print axioms Pql.Piecewise.C15_zero_span_is_not_moved
+#print axioms Pql.Piecewise.C15_eof_error_at_end_of_source
+#print axioms Pql.Piecewise.C15_notFound_discards_earlier_errors
+#print axioms Pql.Piecewise.pStatement_sh
+#print axioms Pql.Piecewise.pStatements_sh
